@@ -72,15 +72,15 @@ Qed.
 Theorem spelling_irrelevant_ok_proof : forall doc bind a sp1 sp2,
   ok_spelling a sp1 -> ok_spelling a sp2 ->
   no_fname_case (surface sp1) = true -> no_fname_case (surface sp2) = true ->
-  DocInv doc -> ns_lookup bind None = None -> xnons a = true ->
+  DocInv doc -> xnons a = true ->
   forall v, query_model doc bind (spell a sp1) = QValue v <-> query_model doc bind (spell a sp2) = QValue v.
 Proof.
-  intros doc bind a sp1 sp2 (W1 & E1 & S1) (W2 & E2 & S2) N1 N2 Hinv Hns Hx v. unfold spell.
+  intros doc bind a sp1 sp2 (W1 & E1 & S1) (W2 & E2 & S2) N1 N2 Hinv Hx v. unfold spell.
   rewrite (query_model_value doc bind _ _ v W1 N1 S1), (query_model_value doc bind _ _ v W2 N2 S2).
   assert (X1 : xnons (surface sp1) = true) by (rewrite <- xnons_norm, E1, xnons_norm; exact Hx).
   assert (X2 : xnons (surface sp2) = true) by (rewrite <- xnons_norm, E2, xnons_norm; exact Hx).
-  pose proof (xeval_norm doc Hinv bind Hns (surface sp1) X1 doc_root (good_root doc Hinv) (ctx_of bind) eq_refl v) as Q1.
-  pose proof (xeval_norm doc Hinv bind Hns (surface sp2) X2 doc_root (good_root doc Hinv) (ctx_of bind) eq_refl v) as Q2.
+  pose proof (xeval_norm doc Hinv bind (surface sp1) X1 doc_root (good_root doc Hinv) (ctx_of bind) eq_refl v) as Q1.
+  pose proof (xeval_norm doc Hinv bind (surface sp2) X2 doc_root (good_root doc Hinv) (ctx_of bind) eq_refl v) as Q2.
   unfold xequiv in E1, E2. rewrite E1 in Q1. rewrite E2 in Q2.
   split; intros [c' H]; exists c'; [apply Q2, Q1, H|apply Q1, Q2, H].
 Qed.
@@ -89,11 +89,11 @@ Qed.
 Corollary spelling_irrelevant_fails_proof : forall doc bind a sp1 sp2,
   ok_spelling a sp1 -> ok_spelling a sp2 ->
   no_fname_case (surface sp1) = true -> no_fname_case (surface sp2) = true ->
-  DocInv doc -> ns_lookup bind None = None -> xnons a = true ->
+  DocInv doc -> xnons a = true ->
   ((forall v, query_model doc bind (spell a sp1) <> QValue v) <-> (forall v, query_model doc bind (spell a sp2) <> QValue v)).
 Proof.
-  intros doc bind a sp1 sp2 H1 H2 N1 N2 Hinv Hns Hx.
-  split; intros H v E; apply (H v); apply (spelling_irrelevant_ok_proof doc bind a sp1 sp2 H1 H2 N1 N2 Hinv Hns Hx v); exact E.
+  intros doc bind a sp1 sp2 H1 H2 N1 N2 Hinv Hx.
+  split; intros H v E; apply (H v); apply (spelling_irrelevant_ok_proof doc bind a sp1 sp2 H1 H2 N1 N2 Hinv Hx v); exact E.
 Qed.
 
 (** ** everything except [//]: equal results, errors included, on every document *)
@@ -111,13 +111,13 @@ Qed.
 Theorem spelling_irrelevant_light_proof : forall doc bind a sp1 sp2,
   ok_spelling a sp1 -> ok_spelling a sp2 ->
   no_fname_case (surface sp1) = true -> no_fname_case (surface sp2) = true ->
-  lnorm (surface sp1) = lnorm (surface sp2) -> ns_lookup bind None = None ->
+  lnorm (surface sp1) = lnorm (surface sp2) ->
   query_model doc bind (spell a sp1) = query_model doc bind (spell a sp2).
 Proof.
-  intros doc bind a sp1 sp2 (W1 & _ & S1) (W2 & _ & S2) N1 N2 E Hns. unfold spell.
+  intros doc bind a sp1 sp2 (W1 & _ & S1) (W2 & _ & S2) N1 N2 E. unfold spell.
   rewrite (query_model_spelled doc bind _ _ W1 N1 S1), (query_model_spelled doc bind _ _ W2 N2 S2).
-  rewrite (xeval_lnorm doc bind Hns (surface sp1) doc_root (ctx_of bind) eq_refl).
-  rewrite (xeval_lnorm doc bind Hns (surface sp2) doc_root (ctx_of bind) eq_refl). rewrite E. reflexivity.
+  rewrite (xeval_lnorm doc bind (surface sp1) doc_root (ctx_of bind) eq_refl).
+  rewrite (xeval_lnorm doc bind (surface sp2) doc_root (ctx_of bind) eq_refl). rewrite E. reflexivity.
 Qed.
 
 (** ** the same statements for an arbitrary context, with the context that is left *)
@@ -133,15 +133,15 @@ Theorem spelling_irrelevant_context_proof : forall doc a sp1 sp2 e1 e2 c,
   ok_spelling a sp1 -> ok_spelling a sp2 ->
   no_fname_case (surface sp1) = true -> no_fname_case (surface sp2) = true ->
   parse_expr (spell a sp1) = POk e1 [] -> parse_expr (spell a sp2) = POk e2 [] ->
-  DocInv doc -> ns_lookup (c_ns c) None = None -> xnons a = true ->
+  DocInv doc -> xnons a = true ->
   forall v c', query doc e1 c = (Ok v, c') <-> query doc e2 c = (Ok v, c').
 Proof.
-  intros doc a sp1 sp2 e1 e2 c (W1 & E1 & S1) (W2 & E2 & S2) N1 N2 P1 P2 Hinv Hns Hx v c'.
+  intros doc a sp1 sp2 e1 e2 c (W1 & E1 & S1) (W2 & E2 & S2) N1 N2 P1 P2 Hinv Hx v c'.
   rewrite (parsed_spelled doc _ _ e1 c W1 N1 S1 P1), (parsed_spelled doc _ _ e2 c W2 N2 S2 P2).
   assert (X1 : xnons (surface sp1) = true) by (rewrite <- xnons_norm, E1, xnons_norm; exact Hx).
   assert (X2 : xnons (surface sp2) = true) by (rewrite <- xnons_norm, E2, xnons_norm; exact Hx).
-  pose proof (xeval_norm doc Hinv (c_ns c) Hns (surface sp1) X1 doc_root (good_root doc Hinv) c eq_refl v c') as Q1.
-  pose proof (xeval_norm doc Hinv (c_ns c) Hns (surface sp2) X2 doc_root (good_root doc Hinv) c eq_refl v c') as Q2.
+  pose proof (xeval_norm doc Hinv (c_ns c) (surface sp1) X1 doc_root (good_root doc Hinv) c eq_refl v c') as Q1.
+  pose proof (xeval_norm doc Hinv (c_ns c) (surface sp2) X2 doc_root (good_root doc Hinv) c eq_refl v c') as Q2.
   unfold xequiv in E1, E2. rewrite E1 in Q1. rewrite E2 in Q2. rewrite Q1, Q2. reflexivity.
 Qed.
 
@@ -149,27 +149,27 @@ Theorem spelling_irrelevant_light_context_proof : forall doc a sp1 sp2 e1 e2 c,
   ok_spelling a sp1 -> ok_spelling a sp2 ->
   no_fname_case (surface sp1) = true -> no_fname_case (surface sp2) = true ->
   parse_expr (spell a sp1) = POk e1 [] -> parse_expr (spell a sp2) = POk e2 [] ->
-  lnorm (surface sp1) = lnorm (surface sp2) -> ns_lookup (c_ns c) None = None ->
+  lnorm (surface sp1) = lnorm (surface sp2) ->
   query doc e1 c = query doc e2 c.
 Proof.
-  intros doc a sp1 sp2 e1 e2 c (W1 & _ & S1) (W2 & _ & S2) N1 N2 P1 P2 E Hns.
+  intros doc a sp1 sp2 e1 e2 c (W1 & _ & S1) (W2 & _ & S2) N1 N2 P1 P2 E.
   rewrite (parsed_spelled doc _ _ e1 c W1 N1 S1 P1), (parsed_spelled doc _ _ e2 c W2 N2 S2 P2).
-  rewrite (xeval_lnorm doc (c_ns c) Hns (surface sp1) doc_root c eq_refl).
-  rewrite (xeval_lnorm doc (c_ns c) Hns (surface sp2) doc_root c eq_refl). rewrite E. reflexivity.
+  rewrite (xeval_lnorm doc (c_ns c) (surface sp1) doc_root c eq_refl).
+  rewrite (xeval_lnorm doc (c_ns c) (surface sp2) doc_root c eq_refl). rewrite E. reflexivity.
 Qed.
 
 (** ** all equivalences, every axis, documents with nodes of order key 0 *)
 Theorem spelling_irrelevant_ord_proof : forall doc bind a sp1 sp2,
   ok_spelling a sp1 -> ok_spelling a sp2 ->
   no_fname_case (surface sp1) = true -> no_fname_case (surface sp2) = true ->
-  DocOrd doc -> ns_lookup bind None = None ->
+  DocOrd doc ->
   forall v, query_model doc bind (spell a sp1) = QValue v <-> query_model doc bind (spell a sp2) = QValue v.
 Proof.
-  intros doc bind a sp1 sp2 (W1 & E1 & S1) (W2 & E2 & S2) N1 N2 Hord Hns v. unfold spell.
+  intros doc bind a sp1 sp2 (W1 & E1 & S1) (W2 & E2 & S2) N1 N2 Hord v. unfold spell.
   rewrite (query_model_value doc bind _ _ v W1 N1 S1), (query_model_value doc bind _ _ v W2 N2 S2).
   pose proof (XPathNav.wf_root doc (ord_wf doc Hord)) as Vr.
-  pose proof (xeval_norm_ord doc Hord bind Hns (surface sp1) doc_root Vr (ctx_of bind) eq_refl v) as Q1.
-  pose proof (xeval_norm_ord doc Hord bind Hns (surface sp2) doc_root Vr (ctx_of bind) eq_refl v) as Q2.
+  pose proof (xeval_norm_ord doc Hord bind (surface sp1) doc_root Vr (ctx_of bind) eq_refl v) as Q1.
+  pose proof (xeval_norm_ord doc Hord bind (surface sp2) doc_root Vr (ctx_of bind) eq_refl v) as Q2.
   unfold xequiv in E1, E2. rewrite E1 in Q1. rewrite E2 in Q2.
   split; intros [c' H]; exists c'; [apply Q2, Q1, H|apply Q1, Q2, H].
 Qed.
@@ -178,13 +178,13 @@ Theorem spelling_irrelevant_ord_context_proof : forall doc a sp1 sp2 e1 e2 c,
   ok_spelling a sp1 -> ok_spelling a sp2 ->
   no_fname_case (surface sp1) = true -> no_fname_case (surface sp2) = true ->
   parse_expr (spell a sp1) = POk e1 [] -> parse_expr (spell a sp2) = POk e2 [] ->
-  DocOrd doc -> ns_lookup (c_ns c) None = None ->
+  DocOrd doc ->
   forall v c', query doc e1 c = (Ok v, c') <-> query doc e2 c = (Ok v, c').
 Proof.
-  intros doc a sp1 sp2 e1 e2 c (W1 & E1 & S1) (W2 & E2 & S2) N1 N2 P1 P2 Hord Hns v c'.
+  intros doc a sp1 sp2 e1 e2 c (W1 & E1 & S1) (W2 & E2 & S2) N1 N2 P1 P2 Hord v c'.
   rewrite (parsed_spelled doc _ _ e1 c W1 N1 S1 P1), (parsed_spelled doc _ _ e2 c W2 N2 S2 P2).
   pose proof (XPathNav.wf_root doc (ord_wf doc Hord)) as Vr.
-  pose proof (xeval_norm_ord doc Hord (c_ns c) Hns (surface sp1) doc_root Vr c eq_refl v c') as Q1.
-  pose proof (xeval_norm_ord doc Hord (c_ns c) Hns (surface sp2) doc_root Vr c eq_refl v c') as Q2.
+  pose proof (xeval_norm_ord doc Hord (c_ns c) (surface sp1) doc_root Vr c eq_refl v c') as Q1.
+  pose proof (xeval_norm_ord doc Hord (c_ns c) (surface sp2) doc_root Vr c eq_refl v c') as Q2.
   unfold xequiv in E1, E2. rewrite E1 in Q1. rewrite E2 in Q2. rewrite Q1, Q2. reflexivity.
 Qed.
